@@ -56,6 +56,46 @@ FunctionEvaluate::~FunctionEvaluate()
 
 
 
+// The expression that is evaluated can call evaluate() again (on a string
+// that calls evaluate() ...), and every level compiles and executes an
+// expression on the stack of the calling thread.  The nesting is counted
+// per thread (the function objects are shared by all threads, so the count
+// cannot live in them), and anything deeper than the limit is an error
+// instead of exhausting the stack.
+enum { eMaximumEvaluateNestingDepth = 200 };
+
+static thread_local unsigned int    s_evaluateNestingDepth = 0;
+
+class EvaluateNestingGuard
+{
+public:
+
+    EvaluateNestingGuard()
+    {
+        ++s_evaluateNestingDepth;
+    }
+
+    ~EvaluateNestingGuard()
+    {
+        --s_evaluateNestingDepth;
+    }
+
+    bool
+    tooDeep() const
+    {
+        return s_evaluateNestingDepth > eMaximumEvaluateNestingDepth;
+    }
+
+private:
+
+    EvaluateNestingGuard(const EvaluateNestingGuard&);
+
+    EvaluateNestingGuard&
+    operator=(const EvaluateNestingGuard&);
+};
+
+
+
 inline XObjectPtr
 doExecute(
             XPathExecutionContext&          executionContext,
@@ -64,6 +104,22 @@ doExecute(
             const PrefixResolver&           resolver,
             const Locator*                  locator)
 {
+    const EvaluateNestingGuard  theNestingGuard;
+
+    if (theNestingGuard.tooDeep() == true)
+    {
+        const XPathExecutionContext::GetCachedString    theString(executionContext);
+
+        executionContext.problem(
+            XPathExecutionContext::eXPath,
+            XPathExecutionContext::eError,
+            XalanMessageLoader::getMessage(
+                theString.get(),
+                XalanMessages::ExpressionNestedTooDeeply),
+            locator,
+            context);
+    }
+
     // $$$ ToDo: Consider moving all of this into a member function of
     // XPathExecutionContext.
     XPathProcessorImpl                  theProcessor(executionContext.getMemoryManager());
